@@ -45,7 +45,18 @@ Syntax-directed; anything outside the shapes below raises `Unsupported`.
   decimals`), `+ - *` `min(a, b)` `max(a, b)` `<` `<=` `>` `>=` on numbers (`N.add …`), `and` / `or` / `not` on bools, `x is None` / `x is not None`,
   `a == b` / `a != b` on values, `isinstance(x, str)`, `a if c else b`.  `None` is `Option.none` or `PyVal.none` by the expected type; a
   number / class flowing into an optional field is wrapped in `some`, a `str` into a value in `PyVal.str`.
-* keyword-only parameters become positional ones in signature order; defaults are recorded in the doc comment, callers pass every argument."""
+* keyword-only parameters become positional ones in signature order; defaults are recorded in the doc comment, callers pass every argument.
+* RANGES (`ranges={lean name: (method, start, last)}`) — the top-level statements of a method body from the ONE whose `ast.unparse` text
+  starts with `start` up to and including the ONE that starts with `last`, translated like a method without parameters (the range may
+  not mention the method's parameters): made for the state-creating statements of `__init__`, where every field is assigned, so the
+  incoming `st` does not matter (the obligation proves that, it is not assumed).
+* PROBES (`probes={text of a boolean expression with every local written `_`: stem}`) — a designated expression (e.g. `etag_attr is not
+  None and not inspect.iscoroutinefunction(etag_attr)`, designated as `_ is not None and (not inspect.iscoroutinefunction(_))`) is NOT translated: a `Bool` parameter, numbered in execution order like a reading — what it
+  evaluates to is an input.  A local that is read only inside probes is left out like a log-only local; its right-hand side must be a
+  constant, a name or an expression designated total (`total_exprs`, e.g. `getattr(self.source, 'etag', None)`).
+* a CONFIG field set as `self.f = bool(<parameter>)` is a `Bool` parameter; every definition takes the configuration fields it (or a
+  method it calls) reads, in `__init__`'s order — or, with `signatures={lean name: [fields]}`, exactly the declared ones (a superset of what
+  it reads), so that a source change which drops the last mention of a field changes the BODY, not the signature."""
 from __future__ import annotations
 
 import ast
@@ -67,10 +78,12 @@ class Ext:
 
 class StateCfg:
     def __init__(self, externals: dict[str, Ext], readings: dict[str, str], lock: str, silent: tuple = ("logger",),
-                 total_calls: tuple = (), wrappers: tuple = ("maybe_await",)):
+                 total_calls: tuple = (), wrappers: tuple = ("maybe_await",), probes: dict[str, str] | None = None, total_exprs: tuple = ()):
         self.externals = dict(externals)      # text of the callee → Ext
         self.readings = dict(readings)        # text of the whole call → parameter stem
         self.lock, self.silent, self.total_calls, self.wrappers = lock, tuple(silent), tuple(total_calls), tuple(wrappers)
+        self.probes = dict(probes or {})      # text of a whole boolean expression → parameter stem (a Bool reading)
+        self.total_exprs = tuple(total_exprs)  # texts of whole expressions taken to be total (right-hand sides of probe-only locals)
 
 
 def _is_self_attr(n: ast.AST, attr: str | None = None) -> bool:
@@ -116,14 +129,33 @@ class _Pop(ast.stmt):
 
 
 class StateTranslator:
-    def __init__(self, tree: ast.Module, cls: ast.ClassDef, cfg: StateCfg, methods: dict[str, str], prefix: str):
+    def __init__(self, tree: ast.Module, cls: ast.ClassDef, cfg: StateCfg, methods: dict[str, str], prefix: str,
+                 ranges: dict[str, tuple] | None = None, signatures: dict[str, list[str]] | None = None):
+        # lean name → the configuration fields its definition takes (a superset of what it reads: the signature then does not depend on
+        # which of them the current source happens to mention)
+        self.signatures = {k: list(v) for k, v in (signatures or {}).items()}
         self.tree, self.cls, self.cfg, self.names, self.prefix = tree, cls, cfg, dict(methods), prefix
         self.fns = {n.name: n for n in cls.body if isinstance(n, (ast.FunctionDef, ast.AsyncFunctionDef))}
         for m in methods:
             if m not in self.fns:
                 raise Unsupported(f"method {m} not found in class {cls.name}")
+        # what is translated: whole methods, and statement ranges (lean name → (method, start, last): the top-level statements of the
+        # method body from the ONE whose text starts with `start` up to and including the ONE that starts with `last`)
+        self.units: dict[str, list[ast.stmt]] = {m: list(self.fns[m].body) for m in methods}
+        self.ranges: dict[str, tuple] = {}
+        for lean_name, (m, start, last) in (ranges or {}).items():
+            if m not in self.fns:
+                raise Unsupported(f"method {m} not found in class {cls.name}")
+            body = self.fns[m].body
+            a = [i for i, st in enumerate(body) if ast.unparse(st).startswith(start)]
+            b = [i for i, st in enumerate(body) if ast.unparse(st).startswith(last)]
+            if len(a) != 1 or len(b) != 1 or a[0] > b[0]:
+                raise Unsupported(f"{m}: {len(a)} top-level statements start with {start!r}, {len(b)} with {last!r} (need exactly one each, in this order)")
+            self.units["range:" + lean_name] = body[a[0]:b[0] + 1]
+            self.ranges[lean_name] = (m, start, last)
         self.state: dict[str, str] = {}      # field → type, in order of first assignment in __init__
         self.config: list[str] = []
+        self.config_type: dict[str, str] = {}
         self.done: dict[str, dict] = {}
         self.max_counts: dict[str, int] = {}
         self.n_handlers = 0
@@ -137,19 +169,22 @@ class StateTranslator:
         if init is None:
             raise Unsupported(f"class {self.cls.name} has no __init__")
         assigned, read = set(), set()
-        for m in self.names:
-            for n in ast.walk(self.fns[m]):
+        walk = {u: [n for st in stmts for n in ast.walk(st)] for u, stmts in self.units.items()}
+        for m in self.units:
+            for n in walk[m]:
                 if _is_self_attr(n):
                     if isinstance(n.ctx, ast.Store):
                         assigned.add(n.attr)
                     elif isinstance(n.ctx, ast.Del):
                         raise Unsupported(f"{m}: del {ast.unparse(n)}")
         roots = {x.split(".")[1] for x in list(self.cfg.externals) + list(self.cfg.total_calls) if x.startswith("self.") and x.count(".") >= 1}
-        for m in self.names:
-            for n in ast.walk(self.fns[m]):
+        self.unit_reads: dict[str, set[str]] = {}
+        for m in self.units:
+            for n in walk[m]:
                 if _is_self_attr(n) and isinstance(n.ctx, ast.Load) and n.attr not in assigned and n.attr != self.cfg.lock \
                         and n.attr not in roots and n.attr not in self.names:
                     read.add(n.attr)
+                    self.unit_reads.setdefault(m, set()).add(n.attr)
         params = {a.arg for a in init.args.args[1:] + init.args.kwonlyargs}
         types: dict[str, str | None] = {}
         order: list[str] = []
@@ -171,10 +206,12 @@ class StateTranslator:
                 if types.get(tgt) not in (None, t):
                     raise Unsupported(f"__init__: field {tgt} is annotated twice, differently")
                 types[tgt] = t
-            if tgt in read:
-                ok = isinstance(val, ast.Call) and isinstance(val.func, ast.Name) and val.func.id == "float" and len(val.args) == 1 \
+            if tgt in read or any(tgt in v for v in self.signatures.values()):
+                ok = isinstance(val, ast.Call) and isinstance(val.func, ast.Name) and val.func.id in ("float", "bool") and len(val.args) == 1 \
                     and not val.keywords and isinstance(val.args[0], ast.Name) and val.args[0].id in params
                 conf_ok[tgt] = conf_ok.get(tgt, 0) + (1 if ok else 100)
+                if ok:
+                    self.config_type[tgt] = {"float": "num", "bool": "bool"}[val.func.id]
         # ast.walk is breadth-first: order the fields by source position instead
         pos: dict[str, tuple] = {}
         for n in ast.walk(init):
@@ -190,9 +227,9 @@ class StateTranslator:
         if missing:
             raise Unsupported(f"fields {sorted(missing)} are assigned by a translated method but not created in __init__")
         for f in order:
-            if f in read:
+            if f in read or any(f in v for v in self.signatures.values()):
                 if conf_ok.get(f) != 1:
-                    raise Unsupported(f"__init__: the configuration field {f} is not set exactly once as float(<parameter>)")
+                    raise Unsupported(f"__init__: the configuration field {f} is not set exactly once as float(<parameter>) / bool(<parameter>)")
                 self.config.append(f)
         missing = read - set(self.config)
         if missing:
@@ -226,6 +263,16 @@ class StateTranslator:
             return e.func.attr
         return None
 
+    def probe_of(self, e: ast.AST) -> str | None:
+        """the parameter stem when `e` is a designated probe: its text with every local of the unit written `_`"""
+        if not self.cfg.probes or not isinstance(e, (ast.BoolOp, ast.Compare, ast.UnaryOp, ast.Call)):
+            return None
+        c = copy.deepcopy(e)
+        for n in ast.walk(c):
+            if isinstance(n, ast.Name) and n.id in self.locals:
+                n.id = "_"
+        return self.cfg.probes.get(ast.unparse(c))
+
     def is_silent(self, st: ast.stmt) -> bool:
         return (isinstance(st, ast.Expr) and isinstance(st.value, ast.Call) and isinstance(st.value.func, ast.Attribute)
                 and isinstance(st.value.func.value, ast.Name) and st.value.func.value.id in self.cfg.silent
@@ -241,7 +288,7 @@ class StateTranslator:
             return self._harmless(e.value)
         if isinstance(e, ast.Call) and ast.unparse(e.func) in self.cfg.total_calls and not e.args and not e.keywords:
             return True
-        return False
+        return ast.unparse(e) in self.cfg.total_exprs
 
     def _harmless_test(self, e: ast.expr, env: dict[str, str]) -> bool:
         def atom(x):
@@ -254,13 +301,15 @@ class StateTranslator:
             return all(self._harmless_test(x, env) for x in e.values)
         return atom(e)
 
-    def _log_only(self, fn) -> set[str]:
+    def _log_only(self, fn, stmts: list[ast.stmt]) -> set[str]:
+        name = fn.name
+        fn = ast.Module(body=list(stmts), type_ignores=[])
         silent_nodes: set[int] = set()
         for n in ast.walk(fn):
-            if isinstance(n, ast.stmt) and self.is_silent(n):
+            if (isinstance(n, ast.stmt) and self.is_silent(n)) or (isinstance(n, ast.expr) and self.probe_of(n) is not None):
                 silent_nodes |= {id(m) for m in ast.walk(n)}
         stored = {n.id for n in ast.walk(fn) if isinstance(n, ast.Name) and isinstance(n.ctx, ast.Store)}
-        params = {a.arg for a in fn.args.args + fn.args.kwonlyargs}
+        params = set(self.param_names)
         cand = stored - params
         changed = True
         while changed:
@@ -280,7 +329,7 @@ class StateTranslator:
             if isinstance(n, (ast.Assign, ast.AnnAssign)) and n.value is not None:
                 t = n.targets[0] if isinstance(n, ast.Assign) and len(n.targets) == 1 else getattr(n, "target", None)
                 if isinstance(t, ast.Name) and t.id in cand and not self._harmless(n.value):
-                    raise Unsupported(f"{fn.name}: the log-only local {t.id} is assigned something that is not obviously total: "
+                    raise Unsupported(f"{name}: the log-only local {t.id} is assigned something that is not obviously total: "
                                       f"{ast.unparse(n.value)[:60]}")
         return cand
 
@@ -359,6 +408,15 @@ class StateTranslator:
                 m, d = float_literal(v)
                 return f"(N.lit {m} {d})", "num", ctx
             raise Unsupported(f"constant {v!r}")
+        if self.probe_of(e) is not None:
+            kind = self.probe_of(e)
+            if kind in ctx.poisoned:
+                raise Unsupported(f"a handler evaluates the probe `{ast.unparse(e)}` although the raise points of its try body differ in it")
+            ctx = ctx.took(kind)
+            k = ctx.counts[kind]
+            self.max_counts[kind] = max(self.max_counts.get(kind, 0), k)
+            self.note(f"`{ast.unparse(e)}` is a PROBE: a Bool parameter (what it evaluates to is an input; the locals only it reads are left out)")
+            return f"{kind}{k}", "bool", ctx
         if isinstance(e, ast.Name):
             if e.id == "self":
                 raise Unsupported("self used as a value")
@@ -369,7 +427,7 @@ class StateTranslator:
             if e.attr in self.state:
                 return f"st.{ident(e.attr)}", self.state[e.attr], ctx
             if e.attr in self.config:
-                return ident(e.attr), "num", ctx
+                return ident(e.attr), self.config_type[e.attr], ctx
             raise Unsupported(f"{ast.unparse(e)} used as a value")
         kind = self.reading(e)
         if kind is not None:
@@ -578,7 +636,8 @@ class StateTranslator:
                 ctx = ctx.took(kind)
                 self.max_counts[kind] = max(self.max_counts.get(kind, 0), ctx.counts[kind])
                 nums.append(f"{kind}{ctx.counts[kind]}")
-        app = " ".join([self.names[h], "N"] + [ident(c) for c in self.config] + nums + ["st", "tr"] + args)
+        app = " ".join([self.names[h], "N"] + [ident(c) for c in d["config"]] + nums + ["st", "tr"] + args)
+        self.cur_config |= set(d["config"])
         r = self.raise_(ctx, "exc")
         k_ = self.S(rest, ctx, ind + "  ")
         return (f"(match {app} with\n{ind}| ⟨st, tr, Rbacx.PyR.Out.raised exc⟩ =>\n{ind}  {r}\n"
@@ -640,11 +699,17 @@ class StateTranslator:
 
     # ------------------------------------------------------------------ a method
     def method(self, name: str) -> str:
-        fn = self.fns[name]
+        return self.unit(name, self.names[name], self.fns[name], self.units[name], None)
+
+    def range_(self, lean_name: str) -> str:
+        m, start, last = self.ranges[lean_name]
+        return self.unit("range:" + lean_name, lean_name, self.fns[m], self.units["range:" + lean_name], (m, start, last))
+
+    def unit(self, name: str, lean_name: str, fn, stmts: list[ast.stmt], rng: tuple | None) -> str:
         a = fn.args
         if a.vararg or a.kwarg or a.posonlyargs or not a.args or a.args[0].arg != "self" or fn.decorator_list:
             raise Unsupported(f"signature of {name}")
-        for n in ast.walk(fn):
+        for n in [x for st in stmts for x in ast.walk(st)]:
             if isinstance(n, (ast.For, ast.While, ast.AsyncFor, ast.AsyncWith, ast.Lambda, ast.FunctionDef, ast.AsyncFunctionDef, ast.ClassDef,
                               ast.Global, ast.Nonlocal, ast.NamedExpr, ast.Delete, ast.AugAssign, ast.Raise, ast.Yield, ast.YieldFrom, ast.Assert,
                               ast.ListComp, ast.SetComp, ast.DictComp, ast.GeneratorExp, ast.Import, ast.ImportFrom, ast.Match)) and n is not fn:
@@ -654,9 +719,16 @@ class StateTranslator:
         allp = [(x, False) for x in a.args[1:]] + [(x, True) for x in a.kwonlyargs]
         dflt = dict(zip([x.arg for x in reversed(a.args)], reversed(a.defaults)))
         dflt.update({x.arg: d for x, d in zip(a.kwonlyargs, a.kw_defaults) if d is not None})
+        self.param_names = [x.arg for x, _ in allp]
+        if rng is not None:
+            # a range takes no parameters of the method: it may not mention them
+            used = {n.id for st in stmts for n in ast.walk(st) if isinstance(n, ast.Name)}
+            if used & set(self.param_names):
+                raise Unsupported(f"{name}: the range mentions the method's parameters {sorted(used & set(self.param_names))}")
+            allp = []
         for x, kwonly in allp:
             ty = ann_type(x.annotation)
-            if ty is None or ty in ("val",) and False:
+            if ty is None:
                 raise Unsupported(f"{name}: parameter {x.arg} has no annotation with a reading")
             params.append((x.arg, ty, kwonly))
             if x.arg in dflt:
@@ -665,6 +737,9 @@ class StateTranslator:
                 defaults[x.arg] = dflt[x.arg].value
         stored = {n.id for n in ast.walk(fn) if isinstance(n, ast.Name) and isinstance(n.ctx, ast.Store)}
         stored |= {h.name for h in ast.walk(fn) if isinstance(h, ast.ExceptHandler) and h.name}
+        if rng is not None:
+            stored = {n.id for st in stmts for n in ast.walk(st) if isinstance(n, ast.Name) and isinstance(n.ctx, ast.Store)}
+            stored |= {h.name for st in stmts for h in ast.walk(st) if isinstance(h, ast.ExceptHandler) and h.name}
         self.locals = {p for p, _, _ in params} | stored
         self.local_ann = {}
         for n in ast.walk(fn):
@@ -673,7 +748,9 @@ class StateTranslator:
                 if t is not None and self.local_ann.setdefault(n.target.id, t) != t:
                     raise Unsupported(f"{name}: the local {n.target.id} is annotated twice, differently")
         self.max_counts = {}
-        kinds = list(self.cfg.readings.values()) + [x.param for x in self.cfg.externals.values()]
+        kinds = list(self.cfg.readings.values()) + list(self.cfg.probes.values()) + [x.param for x in self.cfg.externals.values()]
+        self.cur_config = set(self.unit_reads.get(name, set()))
+        self.n_handlers = 0
         taken = RESERVED | {ident(c) for c in self.config} | set(self.names.values())
         for v in sorted(self.locals):
             iv = ident(v)
@@ -682,20 +759,29 @@ class StateTranslator:
         if len({ident(v) for v in self.locals}) != len(self.locals):
             raise Unsupported(f"{name}: two locals get the same Lean name")
         env = {p: ty for p, ty, _ in params}
-        dead = self._log_only(fn)
-        body_stmts = self._prune(list(fn.body), dead, env)
+        dead = self._log_only(fn, stmts)
+        body_stmts = self._prune(list(stmts), dead, env)
         body = self.S(body_stmts, Ctx(env, {}, []), "  ")
         counts = [(k, self.max_counts.get(k, 0)) for k in kinds]
-        self.done[name] = {"params": params, "counts": counts, "defaults": defaults}
+        config = [c for c in self.config if c in self.cur_config]
+        if lean_name in self.signatures:
+            extra = [c for c in config if c not in self.signatures[lean_name]]
+            if extra or any(c not in self.config for c in self.signatures[lean_name]):
+                raise Unsupported(f"{name}: reads the configuration fields {extra} that its declared signature {self.signatures[lean_name]} lacks "
+                                  f"(or the signature names a field that __init__ does not set as float(<parameter>) / bool(<parameter>))")
+            config = list(self.signatures[lean_name])
+        self.done[name] = {"params": params, "counts": counts, "defaults": defaults, "config": config}
         ext_ret = {x.param: x.returns for x in self.cfg.externals.values()}
-        sig = ["{T P : Type}", "(N : Rbacx.PyR.Num T)"] + [f"({ident(c)} : T)" for c in self.config]
+        probes = set(self.cfg.probes.values())
+        sig = ["{T P : Type}", "(N : Rbacx.PyR.Num T)"] + [f"({ident(c)} : {LEAN_TYPE[self.config_type[c]]})" for c in config]
         for k, n in counts:
             for i in range(1, n + 1):
-                sig.append(f"({k}{i} : T)" if k not in ext_ret else f"({k}{i} : Except String {LEAN_TYPE[ext_ret[k]]})")
+                sig.append(f"({k}{i} : Bool)" if k in probes else f"({k}{i} : T)" if k not in ext_ret else f"({k}{i} : Except String {LEAN_TYPE[ext_ret[k]]})")
         sig += [f"(st : {self.state_name()} T)", "(tr : List (Rbacx.PyR.Call P))"] + [f"({ident(p)} : {LEAN_TYPE[ty]})" for p, ty, _ in params]
-        notes = [f"method `{name}` of `{self.cls.name}`: `st` = the fields {', '.join('`' + f + '`' for f in self.state)} before the call, `tr` = the "
+        what_unit = f"method `{name}`" if rng is None else f"the statements of `{rng[0]}` from `{rng[1]}…` to `{rng[2]}…`"
+        notes = [f"{what_unit} of `{self.cls.name}`: `st` = the fields {', '.join('`' + f + '`' for f in self.state)} before the call, `tr` = the "
                  f"collaborator calls made so far; result = fields after, calls after, how the call ended"]
-        rd = {v: k for k, v in self.cfg.readings.items()}
+        rd = {v: k for k, v in list(self.cfg.readings.items()) + list(self.cfg.probes.items())}
         xs = {x.param: c for c, x in self.cfg.externals.items()}
         for k, n in counts:
             if n:
@@ -708,7 +794,7 @@ class StateTranslator:
         notes += self.notes
         self.notes = []
         doc = ("/-- " + "; ".join(notes)).replace("-/", "- /") + " -/\n"
-        return f"{doc}def {self.names[name]} {' '.join(sig)} :\n    {self.RES()} :=\n  {body}\n"
+        return f"{doc}def {lean_name} {' '.join(sig)} :\n    {self.RES()} :=\n  {body}\n"
 
     def structure(self) -> str:
         rows = "\n".join(f"  {ident(f)} : {LEAN_TYPE[t]}" for f, t in self.state.items())
@@ -716,19 +802,24 @@ class StateTranslator:
                 f"structure {self.state_name()} (T : Type) where\n{rows}\n")
 
 
-def translate_class(source: str, class_name: str, methods: dict[str, str], cfg: StateCfg, prefix: str) -> dict:
+def translate_class(source: str, class_name: str, methods: dict[str, str], cfg: StateCfg, prefix: str, ranges: dict[str, tuple] | None = None,
+                    signatures: dict[str, list[str]] | None = None) -> dict:
     """{"lean": structure + definitions, "state": [[field, reading]…], "config": […], "methods": {name: {"lean_name", "params", "counts",
-    "defaults"}}, "except_classes": [names in except clauses, in order of appearance]}"""
+    "defaults", "config"}}, "ranges": {lean name: {"of": [method, start, last], "config", "counts"}}, "except_classes": [names in except
+    clauses, in order of appearance]}; `ranges`: lean name → (method, start, last) — statement ranges translated like methods without
+    parameters (see the class doc)"""
     tree = ast.parse(source)
     cls = next((n for n in tree.body if isinstance(n, ast.ClassDef) and n.name == class_name), None)
     if cls is None:
         raise Unsupported(f"class {class_name} not found")
-    tr = StateTranslator(tree, cls, cfg, methods, prefix)
-    defs = [tr.method(m) for m in methods]
+    tr = StateTranslator(tree, cls, cfg, methods, prefix, ranges, signatures)
+    defs = [tr.method(m) for m in methods] + [tr.range_(r) for r in (ranges or {})]
     return {"lean": tr.structure() + "\n" + "\n".join(defs),
-            "state": [[f, t] for f, t in tr.state.items()], "config": tr.config,
-            "methods": {m: {"lean_name": methods[m], "params": [[p, t] for p, t, _ in tr.done[m]["params"]],
+            "state": [[f, t] for f, t in tr.state.items()], "config": [[c, tr.config_type[c]] for c in tr.config],
+            "methods": {m: {"lean_name": methods[m], "params": [[p, t] for p, t, _ in tr.done[m]["params"]], "config": tr.done[m]["config"],
                             "counts": [[k, n] for k, n in tr.done[m]["counts"]], "defaults": tr.done[m]["defaults"]} for m in methods},
+            "ranges": {r: {"of": list(ranges[r]), "config": tr.done["range:" + r]["config"],
+                           "counts": [[k, n] for k, n in tr.done["range:" + r]["counts"]]} for r in (ranges or {})},
             "except_classes": tr.except_classes}
 
 
@@ -736,7 +827,10 @@ if __name__ == "__main__":
     import sys
     src = open(sys.argv[1], encoding="utf-8").read()
     cfg = StateCfg({"self.source.etag": Ext("etag", "val"), "self.source.load": Ext("load", "opaque"), "self.guard.set_policy": Ext("set_policy", "unit")},
-                   {"time.time()": "now", "random.uniform(-1.0, 1.0)": "u"}, "_lock", total_calls=("self._src_name",))
-    out = translate_class(src, "HotReloader", {"_register_error": "reloader_register_error", "check_and_reload_async": "reloader_check"}, cfg, "reloader_")
+                   {"time.time()": "now", "random.uniform(-1.0, 1.0)": "u"}, "_lock", total_calls=("self._src_name",),
+                   probes={"etag_attr is not None and (not inspect.iscoroutinefunction(etag_attr))": "sync_etag"},
+                   total_exprs=("getattr(self.source, 'etag', None)",))
+    out = translate_class(src, "HotReloader", {"_register_error": "reloader_register_error", "check_and_reload_async": "reloader_check"}, cfg, "reloader_",
+                          ranges={"reloader_init": ("__init__", "try:", "self._last_error")})
     print(out["lean"])
     print({k: v for k, v in out.items() if k != "lean"})
